@@ -142,6 +142,9 @@ class Bounds:
             b = self.elem_lb(f, d.value, d.node, depth - 1)
           elif d.how == 'param':
             b = self.param_lb(f, e.id, depth - 1)
+          elif d.how == 'unpack' and d.index is not None and d.value is not None:
+            src = _unpack_source(ctx.rd, d)
+            b = self.lb(f, src[0], src[1], depth - 1, nonempty) if src is not None else None
           else:
             b = None
         finally:
@@ -250,6 +253,26 @@ class Bounds:
         return None
     ok, v = au.const(cls.attrs.get('_min_timepoints'))
     return v if ok and isinstance(v, int) else None
+
+
+def _unpack_source(rd, d, hops=5):
+  """(element expression, CFG node where it is evaluated) for the target of `a, b = seq` when seq is, through plain local
+  aliases, a tuple/list display or a positional construction of a namedtuple of the module; None otherwise.  A definition
+  `seq = None` is not a source: unpacking it does not succeed."""
+  v, at = d.value, d.node
+  for _ in range(hops):
+    if isinstance(v, (ast.Tuple, ast.List)) and not any(isinstance(x, ast.Starred) for x in v.elts) and -len(v.elts) <= d.index < len(v.elts):
+      return v.elts[d.index], at
+    if isinstance(v, ast.Call) and norm(v.func).split('.')[-1] in getattr(rd, 'ntuples', ()) and not v.keywords \
+        and not any(isinstance(x, ast.Starred) for x in v.args) and -len(v.args) <= d.index < len(v.args):
+      return v.args[d.index], at
+    if isinstance(v, ast.Name):
+      live = [x for x in rd.defs_at(at, v.id) if not (x.how == 'assign' and isinstance(x.value, ast.Constant) and x.value.value is None)]
+      if len(live) == 1 and live[0].how == 'assign' and live[0].value is not None:
+        v, at = live[0].value, live[0].node
+        continue
+    return None
+  return None
 
 
 def _comprehension_binding(name_node):
@@ -681,13 +704,22 @@ def _unguarded_division(B, f, ctx, node, sub):
   g, rd = ctx.g, ctx.rd
   den = sub.right
   colls, names = _den_bases(den)
+  opaque_origin = []
   for nm in list(names):
     if re.fullmatch(r'\w+', nm):
       for d in rd.defs_at(node, nm):
+        src_ = None
         if d.how == 'assign' and d.value is not None:
-          c2, n2 = _den_bases(d.value)
+          src_ = d.value
+        elif d.how == 'unpack' and d.index is not None and d.value is not None:
+          us_ = _unpack_source(rd, d)
+          src_ = us_[0] if us_ is not None else None
+        if src_ is not None:
+          c2, n2 = _den_bases(src_)
           colls += [c for c in c2 if c not in colls]
           names += [x for x in n2 if x not in names]
+        elif d.how != 'param':
+          opaque_origin.append(nm)      # a loop variable, an unpacked element of something not followed, a with-target...
   root_expr = None
   for e_ in ctx.node_exprs(node):
     if any(x is sub for x in ast.walk(e_)):
@@ -759,6 +791,8 @@ def _unguarded_division(B, f, ctx, node, sub):
   fields = [nm for nm in base_texts if re.fullmatch(r'self\.\w+', nm) and f.cls is not None and nm.split('.')[1] in _stored_fields(f.cls)]
   if fields:
     return 'undecided', 'it depends on the field %s, whose invariant is not established' % fields[0]
+  if opaque_origin:
+    return 'undecided', 'the value of %s comes from a construct that is not followed; whether it was tested there is not known' % opaque_origin[0]
   return 'violation', 'no test of %s anywhere in %s' % (', '.join(sorted(base_texts))[:80] or 'it', f.name)
 
 
